@@ -142,7 +142,9 @@ def build(ctx):
     kb.add_located("SymbolDatabase::setValueTypeInTokenList [integer literal typing from the spelling]", regf, "region")
     tf, k = located_rules(regf, _common.VT_RULES + [
         (r'const std::string tokStr\s*=\s*MathLib::abs\(tok->str\(\)\)\s*;', '', 1, 1),
-        (r'\(tokStr\.find_last_of\("uU"\)\s*!=\s*std::string::npos\)', 'vstr_has_any_n(tokStr, tokStr_len, "uU")', 1, 1),
+        (r'\(tokStr\.find_last_of\("uU"\)\s*!=\s*std::string::npos\)', 'vstr_has_any_n(tokStr, tokStr_len, "uU")', 0, 1),
+        (r'\btokStr\.back\(\)', '(tokStr[tokStr_len - 1])', 0),       # std::string::back() of a non-empty spelling (number tokens are not empty)
+        (r'\btokStr\.front\(\)', '(tokStr[0])', 0),
         (r'const biguint value\s*=\s*MathLib::toBigUNumber\(tokStr,\s*tok\)\s*;', 'const biguint value = ext_value;', 1, 1),
         (r'\btokStr\.size\(\)', 'tokStr_len', 1),
         (r'\bMathLib::(isDec|isIntHex|isOct|isBin)\(tokStr\)', r'\1(tokStr, tokStr_len)', 1),
